@@ -2,6 +2,7 @@
     (string level: the token scanner; the field scope is Tie/TieScope.v). *)
 From Coq Require Import String List Ascii Bool.
 From GP Require Import Model.MatrixInterp Proofs.MatrixInterpProofs.
+From GP Require Import Model.Gv Model.Pipeline Model.Interp Model.MatrixStep Proofs.MatrixStepProofs.
 From GP Require Model.Matrix.
 Import ListNotations.
 Local Open Scope string_scope.
@@ -50,6 +51,28 @@ Proof. exact MatrixInterpProofs.repl_of_perm_anon. Qed.
 Theorem repl_of_perm_dim : forall p d, d <> "" -> repl_of_perm p (String "."%char d) = Matrix.assoc d p.
 Proof. exact MatrixInterpProofs.repl_of_perm_dim. Qed.
 
+(** STEP LEVEL.  After a valid permutation is applied only command, label, plugins, env VALUES and
+    unknown fields can differ: the step key, env names, the matrix definition, the cache and the
+    signature are unchanged *)
+Theorem accepted_step_frame : forall c p c',
+  interpolate_matrix_permutation c p = MOk c' ->
+  cs_key c' = cs_key c /\ cs_sig c' = cs_sig c /\ cs_matrix c' = cs_matrix c /\ cs_cache c' = cs_cache c /\
+  map fst (cs_env c') = map fst (cs_env c).
+Proof. exact MatrixStepProofs.accepted_step_frame. Qed.
+(** an empty permutation changes nothing *)
+Theorem empty_permutation_identity : forall c,
+  Matrix.validate (option_map to_vmatrix (cs_matrix c)) [] = Matrix.Accept ->
+  interpolate_matrix_permutation c [] = MOk c.
+Proof. exact MatrixStepProofs.empty_permutation_identity. Qed.
+(** a rejected permutation never produces a (modified) step (C11) *)
+Theorem rejected_yields_no_step : forall c p,
+  Matrix.validate (option_map to_vmatrix (cs_matrix c)) p <> Matrix.Accept ->
+  interpolate_matrix_permutation c p = MRejected.
+Proof. exact MatrixStepProofs.rejected_yields_no_step. Qed.
+
+Print Assumptions accepted_step_frame.
+Print Assumptions empty_permutation_identity.
+Print Assumptions rejected_yields_no_step.
 Print Assumptions match_token_sound.
 Print Assumptions match_token_complete.
 Print Assumptions token_unique.
